@@ -628,9 +628,17 @@ void vf_perturb_draw(vf_rng_t *r, vf_profile_t *p)
 		}
 		p->nhot = (int)vf_rnd_range(r, 1, 4);
 		p->hot_den = vf_rnd_range(r, 2, 8);
+		/* --hot-func=<substring>: the hot sites are the atomics of the functions whose name contains it (a widened window
+		 * at a chosen place instead of a drawn one) */
+		const char *hf = vf_opt("hot-func", NULL);
+		int forced[8], nforced = 0;
+		if (hf) {
+			for (int k = 0; k < n && nforced < 8; k++) if (strstr(g_msites[k].func, hf)) forced[nforced++] = k;
+			if (nforced) { p->nhot = nforced; p->hot_den = 2; }
+		}
 		int off = snprintf(p->desc, sizeof(p->desc), "hot(1/%u", p->hot_den);
 		for (int i = 0; i < p->nhot; i++) {
-			int k = (int)vf_rnd_n(r, (uint32_t)n);
+			int k = nforced ? forced[i] : (int)vf_rnd_n(r, (uint32_t)n);
 			p->hot_hash[i] = g_msites[k].hash;
 			if (off < (int)sizeof(p->desc) - 1) {
 				off += snprintf(p->desc + off, sizeof(p->desc) - (size_t)off, ",%.24s:%d", g_msites[k].func, g_msites[k].op);
